@@ -193,7 +193,7 @@ func runC13(c *rt.Ctx) {
 		}
 	})
 	c.Exhaustive("all sizes below 2^20")
-	nSeeded := c.Pick(1000000, 10000000)
+	nSeeded := c.Pick(1000000, 60000000)
 	c.Parallel("stratified", 0, func(w *rt.W) {
 		n := nSeeded / w.NShards
 		if w.Shard != 0 {
